@@ -351,7 +351,8 @@ def _make_fn(which, d, time, m, exps):
         if which == "div":
             return jnp.atleast_1d(_div_rev(tt, x, pinn, params))
         if which == "veclap":
-            return _vectorial_laplacian(tt, x, pinn, params, u_vec_ndim=m)
+            # (the documented default: u_vec_ndim is the dimension of x when it is not given)
+            return _vectorial_laplacian(tt, x, pinn, params, u_vec_ndim=None if m == d else m)
         if which == "adv":
             return _u_dot_nabla_times_u_rev(tt, x, pinn, params)
         raise ValueError(which)
